@@ -98,7 +98,7 @@ def check_case(ld, n, k, backing, all_i, res):
         want = list(range(n))
     legal = 1 <= k <= n
     try:
-        parts = ds.split(k)
+        parts = ds.split(k) if (n0 + k) % 2 else ds.split(sections=k)
     except BaseException as e:
         if legal:
             res.violation('refused-legal-split', case, exc_sig(e))
@@ -165,7 +165,8 @@ def check_case(ld, n, k, backing, all_i, res):
         idx = sorted({0, k // 2, k - 1, -1})
     for i in idx:
         try:
-            sh = list(ds.shard(k, i))
+            sh = list(ds.shard(k, i) if (k + i) % 2 else
+                      ds.shard(num_shards=k, shard_index=i))
         except BaseException as e:
             res.violation('shard-refused', {**case, 'i': i}, exc_sig(e))
             continue
